@@ -34,6 +34,8 @@ def shape_bytes(code, text, shape):
         'cr_code': d + b' q\r' + d + b' ' + t + b'\r\n',
         'other': d + b'-x\r\n299 w\r\n' + d + b' ' + t + b'\r\n',
         # (driver-only shapes: not in the TLA+ Shapes vocabulary, used by the systematic enumerators)
+        # a continuation line that is blank-padded and then looks like a final line ("DDD text" after white space)
+        'multi_padcode': d + b'-x\r\n 226 y\r\n\t' + d + b' z\r\n' + d + b' ' + t + b'\r\n',
         # characters that str.splitlines() treats as line ends, inside a line of a multi-line reply and followed by
         # what would look like a final line: the only line ends of the control connection are CR LF / LF
         'multi_ff': d + b'-x\x0c226 y\r\n' + d + b' ' + t + b'\r\n',
@@ -48,7 +50,7 @@ def shape_bytes(code, text, shape):
     }[shape]
 
 
-EXTRA_SHAPES = ['multi_ff', 'multi_vt', 'multi_fs', 'multi_nel', 'multi_ls', 'single_ff', 'multi_arabic', 'multi_fullwidth']
+EXTRA_SHAPES = ['multi_padcode', 'multi_ff', 'multi_vt', 'multi_fs', 'multi_nel', 'multi_ls', 'single_ff', 'multi_arabic', 'multi_fullwidth']
 
 
 # ---------------------------------------------------------------------- TLC -> scenario
@@ -261,6 +263,24 @@ def stall_scenarios():
             sc['xfers'] = [{'eager_final': eager, 'moves': moves}]
             sc['read_timeout'] = 5
             yield sc
+
+
+def timing_pairs():
+    """The same server strategy - data, close of the data connection, the complete closing reply, close of the control
+    connection - with the closing reply (and the control close) arriving BEFORE the data has been read, or after.
+    What the client makes of the reply must not depend on when it reads it.  -> [(reference scenario, scenario)]"""
+    bases = [({'mode': 'file', 'restart': False, 'user': [], 'pass': [], 'path': [97]}, False),
+             ({'mode': 'listing', 'restart': False, 'user': [117], 'pass': [112], 'path': []}, True)]
+    fin = ['final', list(shape_bytes(226, b'ok', 'single')), True]       # complete line, then the control connection closes
+    for sess, fb in bases:
+        late = happy_scenario(sess, fallback=fb)
+        late['xfers'] = [{'eager_final': False, 'moves': [['data', 2], ['close'], fin]}]
+        for moves, eager in (([fin, ['data', 2], ['close']], True), ([['data', 1], fin, ['data', 1], ['close']], False)):
+            for ee in (False, True):
+                early = happy_scenario(sess, fallback=fb)
+                early['xfers'] = [{'eager_final': eager, 'moves': moves}]
+                early['eager_eof'] = ee          # the control connection's end is known together with its last octets
+                yield late, early
 
 
 def strip_cuts(sc):
